@@ -490,7 +490,7 @@ func init() {
 		Rule: "case k: policy = {fail, IgnoreUnknown, handler}[k mod 3]; a random tree (namespaces, several delimiters, non-ASCII short runes) and a valid intent vector into which one option-shaped token whose name is not defined in the context reached at a random item position is inserted: a near miss of a declared name (case flip, proper prefix, one character appended/prepended/substituted, namespace dropped or added), a fresh name, an option defined only in a sibling / not-yet-named command, or an unknown rune inside a cluster; long and short forms, with and without inline argument. " +
 			"Oracle: fail => ErrUnknownFlag naming it, nothing executed; ignore => success and the token is passed through verbatim (exact remaining-argument/positional accounting); handler => called exactly once with (name, inline argument, not-yet-consumed arguments) and the slice it returns (sentinel flag prepended / unchanged / everything replaced) is what is parsed next. distinct = (policy, kind, position, depth, long/short).",
 		Assumptions: []string{"for a cluster containing an unknown rune only 'called exactly once with the pending arguments' is asserted", "under IgnoreUnknown a cluster with an unknown rune is unspecified"},
-		Technique:   "runtime reference-model monitor with single-fault injection at every position; recording stub for UnknownOptionHandler whose marked rewrite makes 'parsed next' observable",
+		Technique:   "runtime reference-model monitor with single-fault injection at every position; recording stub for UnknownOptionHandler whose marked rewrite makes 'parsed next' observable; multi-step histories on one parser with direct oracles",
 		LevelText:   "Fault enumeration by input over positions x policies x near-miss kinds, judged by a denotation oracle.",
 		LevelNote:   "Trusted: scope model (which names are defined where); the handler stub.",
 		DesignRef:   "§4 C07",
